@@ -77,7 +77,7 @@ _NOT_COVERED_BLOCKS = [
 _BU = ['skip', 'delay', 'vsrc', 'v2s', 'consts', 'resampler', 'rtlsdr', 's2pdu', 'hilbert', 'fftstream', 'fftfilter']
 _FIR = ['fir']
 P['C08'] = {
-    'units': list(_BU) + _FIR + ['zc', 'symsync', 'il2p', 'hdlc', 'au', 'auenc', 'synclib', 'bx:sync', 'bx:dsp', 'bx:totext'],
+    'units': list(_BU) + _FIR + ['zc', 'symsync', 'il2p', 'hdlc', 'au', 'auenc', 'fsrc', 'sigmf', 'tcp', 'synclib', 'bx:sync', 'bx:dsp', 'bx:totext'],
     'technique': 'Verus: each covered work() proved to preserve out.produced == F(in.consumed) under a stream-API contract with a universally quantified environment (any window lengths)',
     'level_text': 'Deductive proof, no bound, for the blocks listed under functions (Skip, Delay, VectorSource, VecToStream, ConstantSource, NullSink, RationalResampler, FirFilter, RtlSdrDecode, StreamToPdu, Hilbert, FftStream, FftFilter, ZeroCrossing, SymbolSync, Il2pDeframer, HdlcDeframer): the invariant (state, dst.produced) == F(src.consumed) holds after every work() call for every read-window extension and every write-window length, hence for every chunking, every amount of free output space (incl. full) and every wrap position; no panic site in those bodies is reachable. Float arithmetic inside F is uninterpreted. Sync blocks generated by the derive macro and FftFilterFloat are covered by BOUNDED differential runs only (bit-identical output of a roomy run and an adversarial drip-fed run of the same millions of samples), labelled bounded.',
     'level_note': 'Subset; see coverage.not_covered. Trusted: stream-API contract (stream_prelude.vx), std shims, determinism of float operations. Where F is spelled out (clock recovery step, PDU rule, resampler rule, overlap-add) a behaviour change that keeps chunk independence still fails the contract and must be accompanied by a contract update.',
